@@ -227,6 +227,10 @@ func (r *Result) Counter(name string) int64 {
 
 // Floor declares that counter `name` must reach min, else INCONCLUSIVE.
 func (r *Result) Floor(name string, min int64) {
+	if ReplayFile() != "" {
+		// a replay runs one recorded case: coverage floors do not apply
+		min = 0
+	}
 	r.mu.Lock()
 	r.floors[name] = min
 	if _, ok := r.counters[name]; !ok {
